@@ -327,6 +327,47 @@ func genC06Decoders(r *vc.Run) {
 			}
 		}
 	}
+	// length-prefixed wire forms re-cut: the same 258 entries of an honest DLN proof with the two length prefixes moved
+	// (129/127, 127/129, 130/126, 256/0, ...), decoded and, when accepted, verified
+	{
+		keys, _ := fixtures()
+		kA := keys[0]
+		pd := dlnproof.NewDLNProof(kA.H1i, kA.H2i, kA.Alpha, kA.P, kA.Q, kA.NTildei, newDetRand("c06-dln-recut"))
+		bzs, err := pd.Serialize()
+		if err == nil && len(bzs) == 258 {
+			for _, cut := range [][2]int{{128, 128}, {129, 127}, {127, 129}, {130, 126}, {126, 130}, {255, 1}, {1, 255}, {256, 0}, {0, 256}, {128, 127}, {128, 129}, {127, 127}} {
+				var w [][]byte
+				rest := append(append([][]byte{}, bzs[1:129]...), bzs[130:258]...) // the 256 values
+				take := func(n int) [][]byte {
+					if n > len(rest) {
+						n = len(rest)
+					}
+					o := rest[:n]
+					rest = rest[n:]
+					return o
+				}
+				w = append(w, big.NewInt(int64(cut[0])).Bytes())
+				if cut[0] == 0 {
+					w[len(w)-1] = []byte{0}
+				}
+				w = append(w, take(cut[0])...)
+				w = append(w, big.NewInt(int64(cut[1])).Bytes())
+				if cut[1] == 0 {
+					w[len(w)-1] = []byte{0}
+				}
+				w = append(w, take(cut[1])...)
+				wv := make([]val.V, len(w))
+				for i, b := range w {
+					wv[i] = val.B(b)
+				}
+				args := []val.V{val.List(wv), val.I(kA.H1i), val.I(kA.H2i), val.I(kA.NTildei)}
+				o := r.Case(fmt.Sprintf("decoder/dln-recut/%d-%d", cut[0], cut[1]), true, "dln_unmarshal_verify", args...)
+				if s := o.String(); s == "Panic" || s == "Diverge" {
+					r.Violate(fmt.Sprintf("crash|dlnproof.UnmarshalDLNProof+Verify|recut=%d/%d", cut[0], cut[1]), fmt.Sprintf("a DLN proof whose two length prefixes were re-cut to %d/%d makes decode+verify %s", cut[0], cut[1], s), vc.Line("dln_unmarshal_verify", args))
+				}
+			}
+		}
+	}
 	// vss reconstruct with odd share sets
 	for _, cn := range []string{"secp256k1", "ed25519"} {
 		sh := func(t, id, s int64) val.V { return val.L(val.I64(t), val.I64(id), val.I64(s)) }
